@@ -45,7 +45,7 @@ def overrides_from_patch(patch_path):
     tmp = tempfile.mkdtemp(prefix="wsverif-seed-")
     try:
         shutil.copytree(os.path.join(REPO_ROOT, "websocket"), os.path.join(tmp, "websocket"), ignore=shutil.ignore_patterns("tests", "__pycache__"))
-        r = subprocess.run(["patch", "-p1", "-s", "-i", patch_path], cwd=tmp, capture_output=True, text=True)
+        r = subprocess.run(["patch", "-p1", "-s", "-F3", "--no-backup-if-mismatch", "-i", patch_path], cwd=tmp, capture_output=True, text=True)
         if r.returncode != 0:
             raise ValueError(f"patch does not apply: {r.stdout[-200:]} {r.stderr[-200:]}")
         out = {}
@@ -69,7 +69,9 @@ def seeded_mutants():
         return out
     for d in sorted(os.listdir(base)):
         mp = os.path.join(base, d, "meta.json")
-        pp = os.path.join(base, d, "patch.diff")
+        pp = os.path.join(base, d, "patch.rebased.diff")
+        if not os.path.exists(pp):
+            pp = os.path.join(base, d, "patch.diff")
         if not (os.path.exists(mp) and os.path.exists(pp)):
             continue
         meta = json.load(open(mp))
